@@ -36,7 +36,9 @@ template<class A> static std::string shw(const A& a){ return vf::show(a); }
 template<int L,class T,glm::qualifier Q> static std::string shw(const glm::vec<L,T,Q>& a){ std::string s="("; for(int i=0;i<L;i++){ if(i) s+=","; s+=vf::show(a[i]); } return s+")"; }
 template<int C,int R,class T,glm::qualifier Q> static std::string shw(const glm::mat<C,R,T,Q>& a){ std::string s="["; for(int i=0;i<C;i++) s+=shw(a[i]); return s+"]"; }
 template<class T,glm::qualifier Q> static std::string shw(const glm::qua<T,Q>& a){ return "(x,y,z,w)("+vf::show(a.x)+","+vf::show(a.y)+","+vf::show(a.z)+","+vf::show(a.w)+")"; }
-#define CMP(NAME,CONSTEXPR_CALL,HIDDEN_CALL) do{ auto r1=(CONSTEXPR_CALL); auto r2=(HIDDEN_CALL); if(!eqv(r1,r2)) c.fail(std::string(QN)+":"+NAME+":literal-argument-result-differs-from-variable-argument-result",shw(r1)+" (literal)",shw(r2)+" (variable)"); }while(0)
+// each literal-argument call sits in its own small non-inlined function (a lambda), so that the inline glm function is inlined into a caller
+// in which its scalar arguments are visibly constant (inside one huge function the inliner may leave it out of line, where nothing is constant)
+#define CMP(NAME,CONSTEXPR_CALL,HIDDEN_CALL) do{ auto r1=[&]() __attribute__((noinline)) { return (CONSTEXPR_CALL); }(); auto r2=[&]() __attribute__((noinline)) { return (HIDDEN_CALL); }(); if(!eqv(r1,r2)) c.fail(std::string(QN)+":"+NAME+":literal-argument-result-differs-from-variable-argument-result",shw(r1)+" (literal)",shw(r2)+" (variable)"); }while(0)
 
 // ------------------------------------------------------------------------------------------------ integer / bitfield (C05, C18)
 #if CONST_PROP==5
@@ -93,7 +95,7 @@ template<class T,int N,int D> static void sc_one(const In4<T>& in,vf::Ctx& c){
 	CMP("mat4/literal",m/K,m/k); CMP("mat4*literal",m*K,m*k); CMP("literal/mat3",K/m3,k/m3); { M4 a=m,b=m; a/=K; b/=k; CMP("mat4/=literal",a,b); } { M3 a=m3,b=m3; a*=K; b*=k; CMP("mat3*=literal",a,b); }
 	CMP("min(vec4,literal)",glm::min(v,K),glm::min(v,k)); CMP("max(vec3,literal)",glm::max(v3,K),glm::max(v3,k)); CMP("clamp(vec4,-literal,literal)",glm::clamp(v,-glm::abs(K),glm::abs(K)),glm::clamp(v,-glm::abs(k),glm::abs(k))); CMP("step(literal,vec4)",glm::step(K,v),glm::step(k,v));
 	CMP("mix(vec4,vec4,literal)",glm::mix(v,V4(in.v[3],in.v[2],in.v[1],in.v[0]),K),glm::mix(v,V4(in.v[3],in.v[2],in.v[1],in.v[0]),k)); CMP("mix(x,y,literal)",glm::mix(x,in.v[1],K),glm::mix(x,in.v[1],k));
-	CMP("smoothstep(-literal,literal,vec4)",glm::smoothstep(-glm::abs(K)-(T)1,glm::abs(K),v),glm::smoothstep(-glm::abs(k)-(T)1,glm::abs(k),v)); CMP("fma(vec4,literal,literal)",glm::fma(v,V4(K),V4(K)),glm::fma(v,V4(k),V4(k)));
+	CMP("smoothstep(0,literal,vec4)",glm::smoothstep((T)0,(K>0?K:-K),v),glm::smoothstep(hide((T)0),hide((T)(K>0?K:-K)),v)); CMP("smoothstep(0,literal,x)",glm::smoothstep((T)0,(K>0?K:-K),x),glm::smoothstep(hide((T)0),hide((T)(K>0?K:-K)),x)); CMP("smoothstep(-literal,literal,vec4)",glm::smoothstep(-glm::abs(K)-(T)1,glm::abs(K),v),glm::smoothstep(-glm::abs(k)-(T)1,glm::abs(k),v)); CMP("fma(vec4,literal,literal)",glm::fma(v,V4(K),V4(K)),glm::fma(v,V4(k),V4(k)));
 	// (no libm call with a literal argument: the compiler itself rewrites pow(x,2.0) into x*x and folds exp2/log2 of literals correctly rounded, which libm is not - that difference is not glm's)
 	CMP("fmin(vec4,literal)",glm::fmin(v,K),glm::fmin(v,k)); CMP("fclamp(x,-literal,literal)",glm::fclamp(x,-glm::abs(K),glm::abs(K)),glm::fclamp(x,-glm::abs(k),glm::abs(k)));
 	if constexpr(D==1 && N>0 && N<200){ typedef glm::vec<4,int,glm::defaultp> I4; CMP("ldexp(x,literal)",glm::ldexp(x,N),glm::ldexp(x,hide(N))); CMP("ldexp(vec4,literal)",glm::ldexp(v,I4(N)),glm::ldexp(v,I4(hide(N)))); CMP("ldexp(x,-literal)",glm::ldexp(x,-N),glm::ldexp(x,hide(-N)));
